@@ -192,6 +192,27 @@ pub fn run(run: &Run) {
         },
         |i| json!({"op": "c14.comp", "group": if i % 2 == 0 { "G1" } else { "G2" }, "d": jn(&ds[(i / 2) as usize])}),
     );
+    let nt: u64 = run.tier.pick(4, 24);
+    run.grid(
+        Spec { name: "c14.G2.from_compressed.cofactor-cleared-twist-points", n: nt, classes: &[], required: &[] },
+        |i| Ok(Tally::new(g2_cleared_case(i as usize)?, true, 0)),
+        |i| json!({"op": "c14.g2cleared", "i": i}),
+    );
+}
+pub fn g2_cleared_case(i: usize) -> Result<u32, Bad> {
+    let t = &crate::c08::twist_points(i + 1)[i];
+    let p = refmodel::ec_mul(t, &refmodel::consts().twist_cof);
+    if p.is_inf() {
+        return Ok(0);
+    }
+    assert!(refmodel::in_g2(&p), "cofactor-cleared twist point is not in G2: model broken");
+    for neg in [false, true] {
+        let pt = if neg { refmodel::ec_neg(&p) } else { p.clone() };
+        let b = refmodel::g2_compressed(&pt).unwrap();
+        let got = lib("G2::from_compressed", || G2::from_compressed(&b))?;
+        ensure!(got.is_ok(), "compressed-accept", "G2::from_compressed rejects the compressed encoding {} of a point of G2 (cofactor-cleared twist point #{})", refmodel::hex(&b), i);
+    }
+    Ok(2)
 }
 pub fn meta(run: &Run) -> Meta {
     Meta {
@@ -210,6 +231,7 @@ pub fn replay(c: &Value) -> Result<(), Bad> {
         "c14.fq" => fq_case(&(mccore::gn(c, "a") % q())).map(|_| ()),
         "c14.fq2" => fq2_case(&crate::api::gf2(&c["x"])).map(|_| ()),
         "c14.g1x" => g1x_case(gu(c, "x")).map(|_| ()),
+        "c14.g2cleared" => g2_cleared_case(gu(c, "i") as usize).map(|_| ()),
         "c14.comp" => {
             let d = mccore::gn(c, "d");
             if gs(c, "group") == "G1" { comp_case::<G1>(&d) } else { comp_case::<G2>(&d) }.map(|_| ())
